@@ -1,8 +1,10 @@
 """Triangular mesh (grid/trimesh.hpp), second module.  Property C18 -- neighbour / boundary clauses of trimesh_xt::set_neighbors decided
 loop by loop, plus the accessors (C08) and the array overload of set_nodes_status (C17).
 
-  part 1  set_neighbors, first loop (triangles -> edges_count): outlined inner body `trimesh2.count.step`, container model
-          `trimesh2.map.insert`, both loops closed in `trimesh2.count.loop`
+  part 1  set_neighbors, first loop (triangles -> edges_count): container model `trimesh2.map.insert`, outlined inner body (one triangle edge)
+          `trimesh2.count.step.<part>`, one triangle = inner loop over the extracted table of local vertex pairs, unwound completely
+          `trimesh2.count.tri.<part>`, outer loop closed by a loop contract `trimesh2.count.loop.<part>`; lemma split into the parts
+          ab (entry of the ghost pair {A, B}: uniqueness, completeness, count), uniq (unique keys), sound (keys are triangle vertex pairs)
   part 2  set_neighbors, second loop (edges_count -> neighbour rows, boundary set): outlined body `trimesh2.fill.step` (same extraction as
           tri_sn_step of spec/trimesh.py, contract strengthened with the row frame), loop closed in `trimesh2.fill.loop`
   part 3  neighbors_count_impl / neighbors_indices_impl / neighbors_distances_impl, set_nodes_status (array overload)
@@ -43,11 +45,13 @@ EC_MODEL = r"""
 #define FSL_TRI2_EC
 struct tri3 { size_t v[3]; };                       /* one row of the [K, 3] triangles array */
 struct ec_ins { size_t first; _Bool second; };      /* result of insert: (iterator = entry position, inserted?) */
+struct ec_entry { size_t first, second, count; };   /* one entry of the map: key = (first, second), mapped value = count */
 size_t m_ec_n;                                      /* edges_count.size() */
-size_t GA, GB, S1, S2, GT, GW, WT, WA, WB, CUMN, GC0;
-#define KF(s) (edge_first[(s)])
-#define KS(s) (edge_second[(s)])
-#define KC(s) (edge_count[(s)])
+size_t GA, GB, S1, S2, GT, GW, WT, WA, WB, CUMN;
+size_t GCNT;   /* ghost counter: (triangle, edge) occurrences of {A, B} seen so far, incremented by ghost code */
+#define KF(s) (ec[(s)].first)
+#define KS(s) (ec[(s)].second)
+#define KC(s) (ec[(s)].count)
 /* the PROPERTY's notion of `same edge`: same unordered pair of end points */
 #define PEQ(a1, b1, a2, b2) ((((a1) == (a2)) && ((b1) == (b2))) || (((a1) == (b2)) && ((b1) == (a2))))
 #define KEQ(s, a, b) PEQ(KF(s), KS(s), (a), (b))
@@ -58,12 +62,34 @@ size_t GA, GB, S1, S2, GT, GW, WT, WA, WB, CUMN, GC0;
 #define MAB(t, a, b) PEQ(TRIS(t, a), TRIS(t, b), GA, GB)
 #define INC3(t) ((size_t) MAB(t, 0, 1) + (size_t) MAB(t, 1, 2) + (size_t) MAB(t, 0, 2))
 #define CUM_DEF(t) (CUM[(t) + 1] == CUM[(t)] + INC3(t))
-#define CNT_AB (GW == SIZE_MAX ? (size_t) 0 : KC(GW))
 /* input well-formedness of one triangle: three pairwise different node indices */
 #define TRI_WF(t) (TRIS(t, 0) < m_size && TRIS(t, 1) < m_size && TRIS(t, 2) < m_size && TRIS(t, 0) != TRIS(t, 1) && TRIS(t, 1) != TRIS(t, 2) && TRIS(t, 0) != TRIS(t, 2))
+/* ---- lemma split: a group built with -DTRI2_PARTS proves / uses only the clauses of the parts it names (each part is inductive on its own;
+ * the step contract of a part is proved by the step group of the same part) */
+#ifndef TRI2_PARTS
+#define P_AB(e) (e)
+#define P_UQ(e) (e)
+#define P_SD(e) (e)
+#else
+#ifdef TRI2_AB
+#define P_AB(e) (e)
+#else
+#define P_AB(e) 1
+#endif
+#ifdef TRI2_UQ
+#define P_UQ(e) (e)
+#else
+#define P_UQ(e) 1
+#endif
+#ifdef TRI2_SD
+#define P_SD(e) (e)
+#else
+#define P_SD(e) 1
+#endif
+#endif
 /* ---- invariants of the entry list, each stated at the ghosts */
-/* J1: the witness slot holds the entry of {A, B}, which has been counted at least once */
-#define J1 (GW == SIZE_MAX || (GW < m_ec_n && KEQ(GW, GA, GB) && KC(GW) >= 1))
+/* J1: the witness slot holds the entry of {A, B} and its count is the ghost counter; no entry, no occurrence */
+#define J1 (GW == SIZE_MAX ? GCNT == 0 : (GW < m_ec_n && KEQ(GW, GA, GB) && KC(GW) == GCNT && GCNT >= 1))
 /* J2: no other entry has the key {A, B} */
 #define J2 ((S1 < m_ec_n && S1 != GW) ==> !KEQ(S1, GA, GB))
 /* J3: keys are unique up to orientation */
@@ -74,11 +100,11 @@ size_t GA, GB, S1, S2, GT, GW, WT, WA, WB, CUMN, GC0;
 #endif
 """
 
-EC_PARAMS = "size_t *edge_first, size_t *edge_second, size_t *edge_count, size_t ec_cap"
-EC_ARGS = "edge_first, edge_second, edge_count, ec_cap"
+EC_PARAMS = "struct ec_entry *ec, size_t ec_cap"
+EC_ARGS = "ec, ec_cap"
 EC_FRESH = r"""
 __CPROVER_requires(1 <= ec_cap && ec_cap <= ((size_t) 1 << 42))
-__CPROVER_requires(__CPROVER_is_fresh(edge_first, ec_cap * sizeof(size_t)) && __CPROVER_is_fresh(edge_second, ec_cap * sizeof(size_t)) && __CPROVER_is_fresh(edge_count, ec_cap * sizeof(size_t)))
+__CPROVER_requires(__CPROVER_is_fresh(ec, ec_cap * sizeof(struct ec_entry)))
 """
 
 # ------------------------------------------------------------------ container model: unordered_map::insert (TRUSTED semantics, hand-written)
@@ -89,8 +115,8 @@ EC_INSERT = EC_MODEL + r"""
 #define FSL_TRI2_INSERT
 struct ec_ins tri_ec_insert(struct szpair key, size_t val, """ + EC_PARAMS + r""")
 __CPROVER_requires(1 <= ec_cap && ec_cap <= ((size_t) 1 << 42) && m_ec_n < ec_cap)
-__CPROVER_requires(__CPROVER_is_fresh(edge_first, ec_cap * sizeof(size_t)) && __CPROVER_is_fresh(edge_second, ec_cap * sizeof(size_t)) && __CPROVER_is_fresh(edge_count, ec_cap * sizeof(size_t)))
-__CPROVER_assigns(m_ec_n, edge_first[m_ec_n], edge_second[m_ec_n], edge_count[m_ec_n])
+__CPROVER_requires(__CPROVER_is_fresh(ec, ec_cap * sizeof(struct ec_entry)))
+__CPROVER_assigns(m_ec_n, ec[m_ec_n])
 /* found: nothing changes, the entry returned has an equal key (either orientation) */
 __CPROVER_ensures(!__CPROVER_return_value.second ==> (m_ec_n == __CPROVER_old(m_ec_n) && __CPROVER_return_value.first < m_ec_n
                   && PEQ(KF(__CPROVER_return_value.first), KS(__CPROVER_return_value.first), key.first, key.second)))
@@ -109,7 +135,7 @@ __CPROVER_ensures((__CPROVER_return_value.second && GW < __CPROVER_old(m_ec_n)) 
     __CPROVER_loop_invariant(pos == m_ec_n ==> ((S1 < k ==> !KEQ(S1, key.first, key.second)) && (S2 < k ==> !KEQ(S2, key.first, key.second)) && (GW < k ==> !KEQ(GW, key.first, key.second))))
     __CPROVER_decreases(m_ec_n - k)
     {
-        struct szpair cur = { edge_first[k], edge_second[k] };
+        struct szpair cur = { ec[k].first, ec[k].second };
         if (tri_edge_equal(cur, key))
         {
             pos = k;
@@ -120,9 +146,9 @@ __CPROVER_ensures((__CPROVER_return_value.second && GW < __CPROVER_old(m_ec_n)) 
         struct ec_ins found = { pos, 0 };
         return found;
     }
-    edge_first[m_ec_n] = key.first;
-    edge_second[m_ec_n] = key.second;
-    edge_count[m_ec_n] = val;
+    ec[m_ec_n].first = key.first;
+    ec[m_ec_n].second = key.second;
+    ec[m_ec_n].count = val;
     m_ec_n = m_ec_n + 1;
     struct ec_ins added = { m_ec_n - 1, 1 };
     return added;
@@ -139,58 +165,99 @@ TRI_VOCAB = [
 EC_STEP_RULES = TRI_VOCAB + [
     R(r"const edge_type key\((TRI\([^()]*\)), (TRI\([^()]*\))\);",
       # the triangle read instantiates the input well-formedness of that triangle (three different node indices)
-      r"FSL_PRE(TRI_WF(i)); const struct szpair key = { \1, \2 };", 1),
+      r"FSL_PRE(P_SD(TRI_WF(i))); const struct szpair key = { \1, \2 };", 1),
     R(r"auto result = edges_count\.insert\(\{\s*([^,{}]*),\s*([^,{}]*)\}\);",
       r"struct ec_ins result = tri_ec_insert(\1, \2, %s);" % EC_ARGS
       # induction-hypothesis instance (DESIGN 3.9) of J2 `no entry other than GW has the key {A, B}` at the slot the search returned,
       # taken in the found case, i.e. before any write of this iteration
-      + r" FSL_PRE(result.second || result.first == GW || !KEQ(result.first, GA, GB));", 1),
-    V(r"result\.first->second", "edge_count[FSL_IDX1(result.first, m_ec_n)]"),
+      + r" FSL_PRE(P_AB(result.second || result.first == GW || !KEQ(result.first, GA, GB)));", 1),
+    V(r"result\.first->second", "ec[FSL_IDX1(result.first, m_ec_n)].count"),
 ]
 EC_STEP_GHOST = r"""
     /* ghost code: witnesses */
-    FSL_GHOST(if (PEQ(key.first, key.second, GA, GB)) GW = result.first;)
+    FSL_GHOST(if (PEQ(key.first, key.second, GA, GB)) { GW = result.first; GCNT = GCNT + 1; })
     FSL_GHOST(if (result.second && result.first == S1) { WT = i; WA = e0; WB = e1; })
 """
 ec_step = Unit(
     name="tri_ec_step", file=TRI_H, anchor=SN_ANCHOR, inner=r"for \(const auto& edge_idx : tri_local_indices\)\s*\{",
     sig="void tri_ec_step(size_t i, size_t e0, size_t e1, size_t m_size, size_t n_triangles, const struct tri3 *triangles, %s)" % EC_PARAMS,
     pre=EC_INSERT, rules=EC_STEP_RULES, body_suffix=EC_STEP_GHOST,
-    # ghost: the count of {A, B} at entry (`__CPROVER_old` of a conditional expression is not supported by this cbmc)
-    body_prefix="    FSL_GHOST(GC0 = CNT_AB;)\n",
     contract=EC_FRESH + r"""
 __CPROVER_requires(n_triangles <= """ + NMAX + r""" && __CPROVER_is_fresh(triangles, n_triangles * sizeof(struct tri3)))
 __CPROVER_requires(i < n_triangles && e0 < 3 && e1 < 3 && e0 != e1 && m_ec_n < ec_cap && m_ec_n <= 3 * n_triangles)
 __CPROVER_requires(GA != GB && S1 < ec_cap && S2 < ec_cap)
-__CPROVER_requires(J1 && J2 && J3 && J6(WT <= i))
+__CPROVER_requires(P_AB(J1 && J2) && P_UQ(J3) && P_SD(J6(WT <= i)))
 /* the count of {A, B} is below the number of (triangle, edge) occurrences in the mesh: the increment cannot wrap */
-__CPROVER_requires(CNT_AB < 3 * n_triangles)
-__CPROVER_assigns(m_ec_n, GW, WT, WA, WB, GC0, __CPROVER_object_whole(edge_first), __CPROVER_object_whole(edge_second), __CPROVER_object_whole(edge_count))
-__CPROVER_ensures(J1)
-__CPROVER_ensures(J2)
-__CPROVER_ensures(J3)
-__CPROVER_ensures(J6(WT <= i))
-__CPROVER_ensures(m_ec_n >= __CPROVER_old(m_ec_n) && m_ec_n <= __CPROVER_old(m_ec_n) + 1)
+__CPROVER_requires(P_AB(GCNT < 3 * n_triangles))
+__CPROVER_assigns(m_ec_n, GW, WT, WA, WB, GCNT, __CPROVER_object_whole(ec))
+__CPROVER_ensures(m_ec_n >= __CPROVER_old(m_ec_n) && m_ec_n <= __CPROVER_old(m_ec_n) + 1 && m_ec_n <= ec_cap)
+__CPROVER_ensures(P_AB(J1))
+__CPROVER_ensures(P_AB(J2))
+__CPROVER_ensures(P_UQ(J3))
+__CPROVER_ensures(P_SD(J6(WT <= i)))
 /* the count of {A, B} grows by one exactly when this triangle edge is {A, B} */
-__CPROVER_ensures(CNT_AB == GC0 + (size_t) MAB(i, e0, e1))
+__CPROVER_ensures(P_AB(GCNT == __CPROVER_old(GCNT) + (size_t) MAB(i, e0, e1)))
 /* completeness: this triangle edge has an entry afterwards; an entry never disappears */
-__CPROVER_ensures(MAB(i, e0, e1) ==> GW != SIZE_MAX)
-__CPROVER_ensures(__CPROVER_old(GW) != SIZE_MAX ==> GW != SIZE_MAX)
+__CPROVER_ensures(P_AB(MAB(i, e0, e1) ==> GW != SIZE_MAX))
+__CPROVER_ensures(P_AB(__CPROVER_old(GW) != SIZE_MAX ==> GW != SIZE_MAX))
 """)
 
 H_EC = r"""
 size_t nondet_size_t(void);
 void h_%(fn)s(void)
 {
-    const struct tri3 *tr; size_t *ef, *es, *ec; const size_t *cum;
+    const struct tri3 *tr; struct ec_entry *ec; const size_t *cum;
     GA = nondet_size_t(); GB = nondet_size_t(); S1 = nondet_size_t(); S2 = nondet_size_t(); GT = nondet_size_t(); GW = nondet_size_t();
-    WT = nondet_size_t(); WA = nondet_size_t(); WB = nondet_size_t(); CUMN = nondet_size_t(); m_ec_n = nondet_size_t();
+    WT = nondet_size_t(); WA = nondet_size_t(); WB = nondet_size_t(); CUMN = nondet_size_t(); m_ec_n = nondet_size_t(); GCNT = nondet_size_t();
     %(call)s;
     __CPROVER_assert(0, "canary: postcondition point reachable");
 }
 """
 
-# ------------------------------------------------------------------ both loops of the first half of set_neighbors
+# ------------------------------------------------------------------ the table of local vertex pairs, as extracted
+# (dimensions read from the std::array type; inlined at the call sites, so its entries are constants of the proof)
+_TLI_PAT = r"\A.*?const std::array<std::array<size_type, (\d+)>, (\d+)> tri_local_indices\{(.*?)\};.*\Z"
+tri_tli = Unit(
+    name="tri_tli", file=TRI_H, anchor=SN_ANCHOR, sig="static inline size_t tri_tli(size_t le, size_t k)",
+    rules=[R(_TLI_PAT, r"const size_t tri_local_indices[\2][\1] = \3; return tri_local_indices[FSL_IDX1(le, \2)][FSL_IDX1(k, \1)];", 1, _re.S)])
+tri_tln = Unit(
+    name="tri_tln", file=TRI_H, anchor=SN_ANCHOR, sig="static inline size_t tri_tln(void)",
+    rules=[R(_TLI_PAT, r"return \2;", 1, _re.S)])
+
+# ------------------------------------------------------------------ one triangle: the inner loop over its local edges (unwound completely)
+TRI_REQ = EC_FRESH + r"""
+__CPROVER_requires(n_triangles <= """ + NMAX + r""" && __CPROVER_is_fresh(triangles, n_triangles * sizeof(struct tri3)))
+/* ghost capacity of the map model (model artefact: the real map rehashes): room for three entries per triangle */
+__CPROVER_requires(3 * n_triangles <= ec_cap)
+__CPROVER_requires(n_triangles + 1 <= CUMN && CUMN <= """ + NMAX + r""" + 1 && __CPROVER_is_fresh(CUM, CUMN * sizeof(size_t)))
+__CPROVER_requires(GA != GB && S1 < ec_cap && S2 < ec_cap)
+"""
+ec_tri = Unit(
+    name="tri_ec_tri", file=TRI_H, anchor=SN_ANCHOR, inner=r"for \(size_type i = 0; i < n_triangles; i\+\+\)\s*\{",
+    sig="void tri_ec_tri(size_t i, size_t m_size, size_t n_triangles, const struct tri3 *triangles, %s, const size_t *CUM)" % EC_PARAMS,
+    pre=EC_INSERT,
+    rules=[R(r"for \(const auto& edge_idx : tri_local_indices\)", "for (size_t le_ = 0; le_ < tri_tln(); ++le_)", 1),
+           RB(r"for \(size_t le_ = 0; le_ < tri_tln\(\); \+\+le_\)",
+              "{ tri_ec_step(i, tri_tli(le_, 0), tri_tli(le_, 1), m_size, n_triangles, triangles, %s); }" % EC_ARGS)],
+    # the triangle read instantiates the definition of the ghost count table at that triangle
+    body_prefix="    FSL_PRE(P_AB(CUM_DEF(i)));\n",
+    contract=TRI_REQ + r"""
+__CPROVER_requires(i < n_triangles && m_ec_n <= 3 * i)
+__CPROVER_requires(P_AB(J1 && J2) && P_UQ(J3) && P_SD(J6(WT < i)))
+__CPROVER_requires(P_AB(GCNT == CUM[i] && CUM[i] <= 3 * i))
+__CPROVER_assigns(m_ec_n, GW, WT, WA, WB, GCNT, __CPROVER_object_whole(ec))
+__CPROVER_ensures(m_ec_n <= 3 * (i + 1) && m_ec_n <= ec_cap)
+__CPROVER_ensures(P_AB(J1))
+__CPROVER_ensures(P_AB(J2))
+__CPROVER_ensures(P_UQ(J3))
+__CPROVER_ensures(P_SD(J6(WT <= i)))
+/* the three local edges of the table are the three vertex pairs of the triangle: the ghost counter follows the ghost table */
+__CPROVER_ensures(P_AB(GCNT == CUM[i + 1] && CUM[i + 1] <= 3 * (i + 1)))
+__CPROVER_ensures(P_AB(INC3(i) > 0 ==> GW != SIZE_MAX))
+__CPROVER_ensures(P_AB(__CPROVER_old(GW) != SIZE_MAX ==> GW != SIZE_MAX))
+""")
+
+# ------------------------------------------------------------------ the outer loop of the first half of set_neighbors
 CUT_FIRST = R(r"m_boundary_nodes\.clear\(\);.*\Z", _keep_nl, 1, _re.S)          # slice: keep everything before the second half
 ec_loop = Unit(
     name="tri_sn_count", file=TRI_H, anchor=SN_ANCHOR,
@@ -198,45 +265,36 @@ ec_loop = Unit(
     pre=EC_MODEL,
     rules=[CUT_FIRST,
            R(r"using edge_type = [^;]*;\s*using edge_map = [^;]*;", "", 1),
-           # the freshly constructed map is empty; ghost initialisation of the witness
-           R(r"edge_map edges_count;", "m_ec_n = 0; FSL_GHOST(GW = SIZE_MAX;)", 1),
-           # the table of local vertex pairs is kept as extracted (its dimensions are read from the std::array type)
-           R(r"const std::array<std::array<size_type, (\d+)>, (\d+)> tri_local_indices\{(.*?)\};",
-             r"const size_t tri_local_n = \2; const size_t tri_local_indices[\2][\1] = \3;", 1, _re.S),
+           # the freshly constructed map is empty; ghost initialisation of the witness and of the occurrence counter
+           R(r"edge_map edges_count;", "m_ec_n = 0; FSL_GHOST(GW = SIZE_MAX; GCNT = 0;)", 1),
+           R(r"const std::array<std::array<size_type, \d+>, \d+> tri_local_indices\{.*?\};", "/* table of local vertex pairs: units tri_tli / tri_tln */", 1, _re.S),
            R(r"size_type n_triangles = triangles\.shape\(\)\[0\];", "size_t n_triangles = n_triangles_;", 1),
-           R(r"for \(const auto& edge_idx : tri_local_indices\)", "for (size_t le_ = 0; le_ < tri_local_n; ++le_)", 1),
-           RB(r"for \(size_t le_ = 0; le_ < tri_local_n; \+\+le_\)",
-              "{ tri_ec_step(i, tri_local_indices[le_][0], tri_local_indices[le_][1], m_size, n_triangles, triangles, %s); }" % EC_ARGS),
-           # the triangle read instantiates the definition of the ghost count table at that triangle
-           R(r"(for \(size_type i = 0; i < n_triangles; i\+\+\)\s*)\{", r"\1{ FSL_PRE(CUM_DEF(i));", 1),
+           RB(r"for \(size_type i = 0; i < n_triangles; i\+\+\)", "{ tri_ec_tri(i, m_size, n_triangles, triangles, %s, CUM); }" % EC_ARGS),
            ],
-    contract=EC_FRESH + r"""
-__CPROVER_requires(n_triangles_ <= """ + NMAX + r""" && __CPROVER_is_fresh(triangles, n_triangles_ * sizeof(struct tri3)))
-/* ghost capacity of the map model (model artefact: the real map rehashes): room for three entries per triangle */
-__CPROVER_requires(3 * n_triangles_ <= ec_cap)
-__CPROVER_requires(n_triangles_ + 1 <= CUMN && CUMN <= """ + NMAX + r""" + 1 && __CPROVER_is_fresh(CUM, CUMN * sizeof(size_t)) && CUM[0] == 0)
-__CPROVER_requires(GA != GB && S1 < ec_cap && S2 < ec_cap && GT < n_triangles_)
-__CPROVER_assigns(m_ec_n, GW, WT, WA, WB, GC0, __CPROVER_object_whole(edge_first), __CPROVER_object_whole(edge_second), __CPROVER_object_whole(edge_count))
+    contract=TRI_REQ.replace("n_triangles", "n_triangles_") + r"""
+__CPROVER_requires(CUM[0] == 0 && GT < n_triangles_)
+__CPROVER_assigns(m_ec_n, GW, WT, WA, WB, GCNT, __CPROVER_object_whole(ec))
 #define n_triangles n_triangles_
 __CPROVER_ensures(m_ec_n <= 3 * n_triangles)
 /* C18 no duplicates: at most one entry has the key {A, B}, in either orientation (ghost pair of slots); keys are unique */
-__CPROVER_ensures((S1 < m_ec_n && S2 < m_ec_n && S1 != S2) ==> !(KEQ(S1, GA, GB) && KEQ(S2, GA, GB)))
-__CPROVER_ensures(J3)
+__CPROVER_ensures(P_UQ((S1 < m_ec_n && S2 < m_ec_n && S1 != S2) ==> !(KEQ(S1, GA, GB) && KEQ(S2, GA, GB))))
+__CPROVER_ensures(P_UQ(J3))
 /* C18 soundness: the key of every entry is a pair of different vertices of some triangle (hence two different node indices) */
-__CPROVER_ensures(J6(1))
+__CPROVER_ensures(P_SD(J6(1)))
 /* C18 completeness: every edge of every triangle has an entry */
-__CPROVER_ensures(INC3(GT) > 0 ==> (GW < m_ec_n && KEQ(GW, GA, GB)))
-/* C18 counts: the entry of {A, B} counts the (triangle, edge) occurrences of {A, B}; no entry iff no occurrence */
-__CPROVER_ensures(GW != SIZE_MAX ==> (GW < m_ec_n && KEQ(GW, GA, GB) && KC(GW) == CUM[n_triangles] && KC(GW) >= 1))
-__CPROVER_ensures(GW == SIZE_MAX ==> (CUM[n_triangles] == 0 && (S1 < m_ec_n ==> !KEQ(S1, GA, GB))))
+__CPROVER_ensures(P_AB(INC3(GT) > 0 ==> (GW < m_ec_n && KEQ(GW, GA, GB))))
+/* C18 counts: the entry of {A, B} counts the (triangle, edge) occurrences of {A, B}; no entry iff no occurrence; no other entry has that key */
+__CPROVER_ensures(P_AB(GW != SIZE_MAX ==> (GW < m_ec_n && KEQ(GW, GA, GB) && KC(GW) == CUM[n_triangles] && KC(GW) >= 1)))
+__CPROVER_ensures(P_AB(GW == SIZE_MAX ==> CUM[n_triangles] == 0))
+__CPROVER_ensures(P_AB(J2))
 #undef n_triangles
 """,
     loops={0: r"""
-__CPROVER_assigns(i, m_ec_n, GW, WT, WA, WB, GC0, __CPROVER_object_whole(edge_first), __CPROVER_object_whole(edge_second), __CPROVER_object_whole(edge_count))
-__CPROVER_loop_invariant(i <= n_triangles && m_ec_n <= 3 * i)
-__CPROVER_loop_invariant(J1 && J2 && J3 && J6(WT < i))
-__CPROVER_loop_invariant(CNT_AB == CUM[i] && CUM[i] <= 3 * i)
-__CPROVER_loop_invariant((GT < i && INC3(GT) > 0) ==> GW != SIZE_MAX)
+__CPROVER_assigns(i, m_ec_n, GW, WT, WA, WB, GCNT, __CPROVER_object_whole(ec))
+__CPROVER_loop_invariant(i <= n_triangles && m_ec_n <= 3 * i && m_ec_n <= ec_cap)
+__CPROVER_loop_invariant(P_AB(J1 && J2) && P_UQ(J3) && P_SD(J6(WT < i)))
+__CPROVER_loop_invariant(P_AB(GCNT == CUM[i] && CUM[i] <= 3 * i))
+__CPROVER_loop_invariant(P_AB((GT < i && INC3(GT) > 0) ==> GW != SIZE_MAX))
 __CPROVER_decreases(n_triangles - i)
 """},
 )
@@ -244,23 +302,490 @@ __CPROVER_decreases(n_triangles - i)
 _TEQ = _t1.tri_edge_equal
 G_INSERT = Group(
     name="trimesh2.map.insert", units=[_TEQ, ec_step],
-    harness=H_EC % dict(fn="tri_ec_insert", call="struct szpair k = { nondet_size_t(), nondet_size_t() }; tri_ec_insert(k, nondet_size_t(), ef, es, ec, nondet_size_t())"),
+    harness=H_EC % dict(fn="tri_ec_insert", call="struct szpair k = { nondet_size_t(), nondet_size_t() }; tri_ec_insert(k, nondet_size_t(), ec, nondet_size_t())"),
     entry="h_tri_ec_insert", enforce="tri_ec_insert", loop_contracts=True, timeout=300, min_obligations=20,
     clause="map model: insert({key, v}) = linear search with the extracted tri_edge_equal: returns an entry with an equal key (either orientation) and "
            "changes nothing, or appends (key, v) when no earlier entry (ghost slots) has an equal key")
-G_EC_STEP = Group(
-    name="trimesh2.count.step", units=[_TEQ, ec_step],
-    harness=H_EC % dict(fn="tri_ec_step", call="tri_ec_step(nondet_size_t(), nondet_size_t(), nondet_size_t(), nondet_size_t(), nondet_size_t(), tr, ef, es, ec, nondet_size_t())"),
-    entry="h_tri_ec_step", enforce="tri_ec_step", replace=["tri_ec_insert"], timeout=300, min_obligations=20,
-    clause="set_neighbors, first loop, one (triangle, local edge): the entry of the ghost pair {A, B} is created with count 1 or its count grows by one "
-           "exactly when this edge is {A, B}; keys stay unique; every key is a vertex pair of a triangle; other counts are untouched")
-G_EC_LOOP = Group(
-    name="trimesh2.count.loop", units=[_TEQ, ec_step, ec_loop],
-    harness=H_EC % dict(fn="tri_sn_count", call="tri_sn_count(nondet_size_t(), nondet_size_t(), tr, ef, es, ec, nondet_size_t(), cum)"),
-    entry="h_tri_sn_count", enforce="tri_sn_count", replace=["tri_ec_step"], loop_contracts=True, unwindset={("tri_sn_count", 1): 4},
-    timeout=600, min_obligations=30,
-    clause="set_neighbors, first loop as a whole (any number of triangles): at most one entry per unordered node pair, every entry is a vertex pair of "
-           "a triangle, every triangle edge has an entry, and the entry's count is the number of (triangle, edge) occurrences of the pair")
+_EC_PARTS = [
+    ("ab", "TRI2_AB", "the entry of the ghost pair {A, B} is unique, is created with count 1 or its count grows by one exactly when the edge read is "
+                      "{A, B} (count == ghost occurrence counter), every edge read has an entry afterwards",
+     "at most one entry has the key {A, B}; every triangle edge {A, B} has an entry; its count is the number of (triangle, edge) occurrences "
+     "of {A, B} (ghost prefix-count table CUM), no entry iff no occurrence"),
+    ("uniq", "TRI2_UQ", "keys stay unique up to orientation (ghost pair of slots)",
+     "no two entries have the same end points in either orientation (ghost pair of slots): no duplicates"),
+    ("sound", "TRI2_SD", "the key of every entry is a pair of different vertices of one triangle (ghost slot, ghost-written witness triangle)",
+     "every entry's key is a pair of different vertices of some triangle, hence two different node indices"),
+]
+G_EC_STEPS, G_EC_TRIS, G_EC_LOOPS = [], [], []
+for _tag, _def, _cs, _cl in _EC_PARTS:
+    G_EC_STEPS.append(Group(
+        name="trimesh2.count.step." + _tag, units=[_TEQ, ec_step], defines=["TRI2_PARTS", _def],
+        harness=H_EC % dict(fn="tri_ec_step", call="tri_ec_step(nondet_size_t(), nondet_size_t(), nondet_size_t(), nondet_size_t(), nondet_size_t(), tr, ec, nondet_size_t())"),
+        entry="h_tri_ec_step", enforce="tri_ec_step", replace=["tri_ec_insert"], backend="cadical", timeout=300, min_obligations=20,
+        clause="set_neighbors, first loop, one (triangle, local edge): " + _cs))
+    G_EC_TRIS.append(Group(
+        name="trimesh2.count.tri." + _tag, units=[_TEQ, ec_step, tri_tli, tri_tln, ec_tri], defines=["TRI2_PARTS", _def],
+        harness=H_EC % dict(fn="tri_ec_tri", call="tri_ec_tri(nondet_size_t(), nondet_size_t(), nondet_size_t(), tr, ec, nondet_size_t(), cum)"),
+        entry="h_tri_ec_tri", enforce="tri_ec_tri", replace=["tri_ec_step"], unwindset={("tri_ec_tri", 0): 4},
+        # measured: ab 216 s (machine load 14-24), uniq 16 s, sound 71 s
+        backend="cadical", timeout=900, min_obligations=30,
+        clause="set_neighbors, first loop, one triangle (inner loop over the EXTRACTED table of local vertex pairs, unwound completely): the loop "
+               "invariant of part `%s` is carried from triangle i to i + 1; in particular the three local edges are the three vertex pairs of the "
+               "triangle, each once (ghost counter == ghost prefix table)" % _tag))
+    G_EC_LOOPS.append(Group(
+        name="trimesh2.count.loop." + _tag, units=[_TEQ, ec_step, tri_tli, tri_tln, ec_tri, ec_loop], defines=["TRI2_PARTS", _def],
+        harness=H_EC % dict(fn="tri_sn_count", call="tri_sn_count(nondet_size_t(), nondet_size_t(), tr, ec, nondet_size_t(), cum)"),
+        entry="h_tri_sn_count", enforce="tri_sn_count", replace=["tri_ec_tri"], loop_contracts=True,
+        # measured: ab 194 s (machine load 14-24), uniq 7 s, sound 16 s
+        backend="cadical", timeout=900, min_obligations=30,
+        clause="set_neighbors, first loop as a whole (any number of triangles): " + _cl))
 
-GROUPS = {"C18": [G_INSERT, G_EC_STEP, G_EC_LOOP]}
+GROUPS = {"C18": [G_INSERT] + G_EC_STEPS + G_EC_TRIS + G_EC_LOOPS}
 PROPS = {}
+
+
+# ====================================================================================================================== part 2: second loop
+# `for (const auto& edge : edges_count)`: iteration over the entry list (n_edges, edge_first, edge_second, edge_count) in list order.
+# The body is the SAME extraction as unit tri_sn_step of spec/trimesh.py (same anchor, same inner anchor, same rules SN_STEP_RULES, same
+# parameter list and row model: fixed-capacity rows of NB_CAP slots, one length per node).  Its contract there says nothing about the slots a
+# row already has (frame) nor about the exact growth of a row, which the loop-level clauses need; the unit below states them, and the
+# whole-loop group replaces calls by THIS contract (proved by trimesh2.fill.step).
+# Ghosts (harness-owned): TG, TH two nodes; TE an entry; RS, RS2 two slots of the row of TG; DEG[k] = number of entries among [0, k)
+# incident to TG (DEG[0] = 0, DEG[k + 1] = DEG[k] + INCD(TG, k), instantiated where entry k is read).
+# Ghost variables written by ghost code: PG / PH (slots of TG's / TH's row written for entry TE), WE / WE2 (entries that wrote slots RS / RS2),
+# BE (entry that put TG into the boundary set).
+SN2_MODEL = _t1.SN_MODEL + r"""
+#ifndef FSL_TRI2_SN
+#define FSL_TRI2_SN
+size_t TH, RS, RS2, PG, PH, WE, WE2, BE, DEGN;
+#define EF(k) (edge_first[(k)])
+#define ES(k) (edge_second[(k)])
+#define ECNT(k) (edge_count[(k)])
+#ifndef PEQ
+#define PEQ(a1, b1, a2, b2) ((((a1) == (a2)) && ((b1) == (b2))) || (((a1) == (b2)) && ((b1) == (a2))))
+#endif
+#define SAME_D(x, y) ((x) == (y) || (isnan(x) && isnan(y)))
+#define INCD(x, k) ((size_t) (EF(k) == (x)) + (size_t) (ES(k) == (x)))        /* how many end points of entry k are node x */
+#define DEG_DEF(k) (DEG[(k) + 1] == DEG[(k)] + INCD(TG, (k)))
+/* input well-formedness of one entry (established by the first loop, trimesh2.count.loop): two different node indices */
+#define ENT_WF(k) (EF(k) < m_size && ES(k) < m_size && EF(k) != ES(k))
+/* keys are unique up to orientation (established by the first loop): instance at a pair of entries */
+#define ENT_UNIQ(a, b) (((a) < n_edges && (b) < n_edges && (a) != (b)) ==> !PEQ(EF(a), ES(a), EF(b), ES(b)))
+#define OTHER(k, x) (EF(k) == (x) ? ES(k) : EF(k))
+#endif
+"""
+SN2_REQ = _t1.SN_FRESH + r"""
+__CPROVER_requires(TH < m_size && RS < NB_CAP && RS2 < NB_CAP && PG < NB_CAP && PH < NB_CAP)
+__CPROVER_requires(NBN(TG) <= NB_CAP && NBN(TH) <= NB_CAP)
+"""
+
+
+def _row_frame(x, s):
+    return ("__CPROVER_ensures(%(s)s < __CPROVER_old(NBN(%(x)s)) ==> (NBI(%(x)s, %(s)s) == __CPROVER_old(NBI(%(x)s, %(s)s)) "
+            "&& SAME_D(NBD(%(x)s, %(s)s), __CPROVER_old(NBD(%(x)s, %(s)s)))))\n" % dict(x=x, s=s))
+
+
+def _row_growth(x):
+    return (r"""
+__CPROVER_ensures(ENT_WF(ek) ==> (NBN(%(x)s) == __CPROVER_old(NBN(%(x)s)) + INCD(%(x)s, ek) && NBN(%(x)s) <= NB_CAP))
+__CPROVER_ensures((ENT_WF(ek) && INCD(%(x)s, ek) > 0) ==> (__CPROVER_old(NBN(%(x)s)) < NB_CAP && NBI(%(x)s, __CPROVER_old(NBN(%(x)s))) == OTHER(ek, %(x)s)))
+""" % dict(x=x))
+
+
+sn_step2 = Unit(
+    name="tri_sn_step2", file=TRI_H, anchor=SN_ANCHOR, inner=r"for \(const auto& edge : edges_count\)\s*\{",
+    sig="void tri_sn_step2(size_t ek, %s)" % _t1.SN_PARAMS, pre=SN2_MODEL, rules=_t1.SN_STEP_RULES,
+    contract=SN2_REQ + r"""
+__CPROVER_requires(ek < n_edges)
+__CPROVER_assigns(__CPROVER_object_whole(m_boundary_nodes), __CPROVER_object_whole(m_neighbors_indices), __CPROVER_object_whole(m_neighbors_distances),
+                  __CPROVER_object_whole(m_neighbors_n))
+/* rows of the ghost nodes: grow by one slot per end point of this entry that is the node; the new slot holds the other end point; slots
+ * already there keep index and distance */
+""" + _row_growth("TG") + _row_growth("TH") + _row_frame("TG", "RS") + _row_frame("TG", "RS2") + _row_frame("TG", "PG") + _row_frame("TH", "PH") + r"""
+/* both directions of one entry get the same distance */
+__CPROVER_ensures((ENT_WF(ek) && EF(ek) == TG && ES(ek) == TH) ==> SAME_D(NBD(TG, __CPROVER_old(NBN(TG))), NBD(TH, __CPROVER_old(NBN(TH)))))
+/* boundary set: only grows; an end point of an entry counted once enters; nothing else enters */
+__CPROVER_ensures(__CPROVER_old(m_boundary_nodes[TG]) ==> m_boundary_nodes[TG])
+__CPROVER_ensures((ENT_WF(ek) && ECNT(ek) == 1 && INCD(TG, ek) > 0) ==> m_boundary_nodes[TG])
+__CPROVER_ensures((m_boundary_nodes[TG] && !__CPROVER_old(m_boundary_nodes[TG])) ==> (ECNT(ek) == 1 && INCD(TG, ek) > 0))
+""")
+
+H_SN2 = r"""
+size_t nondet_size_t(void);
+void h_%(fn)s(void)
+{
+    const size_t *ef, *es, *ec; const double *pts; _Bool *bn; size_t *ni, *nn; double *nd; const size_t *deg;
+    TG = nondet_size_t(); TE = nondet_size_t(); TH = nondet_size_t(); RS = nondet_size_t(); RS2 = nondet_size_t(); PG = nondet_size_t();
+    PH = nondet_size_t(); WE = nondet_size_t(); WE2 = nondet_size_t(); BE = nondet_size_t(); DEGN = nondet_size_t();
+    %(call)s;
+    __CPROVER_assert(0, "canary: postcondition point reachable");
+}
+"""
+
+# ---- container models used by the prologue of the second half (TRUSTED semantics, small loops proved in trimesh2.model.*)
+SN2_CONTAINERS = r"""
+#ifndef FSL_TRI2_CONT
+#define FSL_TRI2_CONT
+/* std::unordered_set<size_type>::clear() on the characteristic array of the set */
+void fsl_bset_clear(_Bool *m_boundary_nodes, size_t m_size)
+__CPROVER_requires(0 < m_size && m_size <= ((size_t) 1 << 40) && __CPROVER_is_fresh(m_boundary_nodes, m_size) && TG < m_size)
+__CPROVER_assigns(__CPROVER_object_whole(m_boundary_nodes))
+__CPROVER_ensures(m_boundary_nodes[TG] == 0)
+{
+    for (size_t k = 0; k < m_size; ++k)
+    __CPROVER_assigns(k, __CPROVER_object_whole(m_boundary_nodes))
+    __CPROVER_loop_invariant(k <= m_size)
+    __CPROVER_loop_invariant(TG < k ==> m_boundary_nodes[TG] == 0)
+    __CPROVER_decreases(m_size - k)
+    {
+        m_boundary_nodes[k] = 0;
+    }
+}
+/* std::vector<row>::resize(m_size) on an EMPTY vector of rows (the member of an object under construction): m_size empty rows */
+void fsl_rows_resize(size_t *m_neighbors_n, size_t m_size)
+__CPROVER_requires(0 < m_size && m_size <= ((size_t) 1 << 40) && __CPROVER_is_fresh(m_neighbors_n, m_size * 8) && TG < m_size && TH < m_size)
+__CPROVER_assigns(__CPROVER_object_whole(m_neighbors_n))
+__CPROVER_ensures(NBN(TG) == 0 && NBN(TH) == 0)
+{
+    for (size_t k = 0; k < m_size; ++k)
+    __CPROVER_assigns(k, __CPROVER_object_whole(m_neighbors_n))
+    __CPROVER_loop_invariant(k <= m_size)
+    __CPROVER_loop_invariant((TG < k ==> NBN(TG) == 0) && (TH < k ==> NBN(TH) == 0))
+    __CPROVER_decreases(m_size - k)
+    {
+        m_neighbors_n[k] = 0;
+    }
+}
+#endif
+"""
+
+SN2_Q1 = ("((TE < %s && EF(TE) == TG && ES(TE) == TH) ==> (PG < NBN(TG) && PG < NB_CAP && PH < NBN(TH) && PH < NB_CAP && NBI(TG, PG) == TH && NBI(TH, PH) == TG "
+          "&& SAME_D(NBD(TG, PG), NBD(TH, PH))))")
+SN2_Q2 = ("(%(s)s < NBN(TG) ==> (%(w)s < %(k)s && %(w)s < n_edges && PEQ(EF(%(w)s), ES(%(w)s), TG, NBI(TG, %(s)s)) && NBI(TG, %(s)s) != TG && NBI(TG, %(s)s) < m_size))")
+SN2_Q4 = "((RS < NBN(TG) && RS2 < NBN(TG) && RS != RS2) ==> (NBI(TG, RS) != NBI(TG, RS2) && WE != WE2))"
+SN2_Q5A = "((TE < %s && ECNT(TE) == 1 && (EF(TE) == TG || ES(TE) == TG)) ==> m_boundary_nodes[TG])"
+SN2_Q5B = "(m_boundary_nodes[TG] ==> (BE < %s && BE < n_edges && ECNT(BE) == 1 && (EF(BE) == TG || ES(BE) == TG)))"
+
+SN2_BODY = (
+    "{ /* the entry read instantiates the input preconditions (what the first loop establishes for every entry / pair of entries) and the\n"
+    "   * definition of the ghost count table */\n"
+    "  FSL_PRE(ENT_WF(ek) && ENT_UNIQ(WE, ek) && ENT_UNIQ(WE2, ek) && DEG_DEF(ek));\n"
+    "  /* ghost snapshots */ const size_t n0_ = NBN(TG), h0_ = NBN(TH); const _Bool b0_ = m_boundary_nodes[TG];\n"
+    "  tri_sn_step2(ek, %s);\n"
+    "  /* ghost code: witnesses */\n"
+    "  if (ek == TE && EF(ek) == TG && ES(ek) == TH) { PG = n0_; PH = h0_; }\n"
+    "  if (INCD(TG, ek) > 0 && n0_ == RS) WE = ek;\n"
+    "  if (INCD(TG, ek) > 0 && n0_ == RS2) WE2 = ek;\n"
+    "  if (m_boundary_nodes[TG] && !b0_) BE = ek;\n"
+    "}" % _t1.SN_ARGS)
+
+sn_fill = Unit(
+    name="tri_sn_fill", file=TRI_H, anchor=SN_ANCHOR,
+    sig="void tri_sn_fill(%s, const size_t *DEG)" % _t1.SN_PARAMS, pre=SN2_MODEL + SN2_CONTAINERS,
+    rules=[R(r"\A.*?(?=m_boundary_nodes\.clear\(\);)", _keep_nl, 1, _re.S),           # slice: the second half of set_neighbors
+           V(r"m_boundary_nodes\.clear\(\);", "fsl_bset_clear(m_boundary_nodes, m_size); FSL_GHOST(PG = 0; PH = 0;) /* ghost witness slots: any slot number */"),
+           V(r"m_neighbors_indices\.resize\(m_size\);", "fsl_rows_resize(m_neighbors_n, m_size);"),
+           V(r"m_neighbors_distances\.resize\(m_size\);", "/* the row model keeps ONE length per node (index and distance rows are pushed in lock step) */ ;"),
+           R(r"for \(const auto& edge : edges_count\)", "for (size_t ek = 0; ek < n_edges; ++ek)", 1),
+           RB(r"for \(size_t ek = 0; ek < n_edges; \+\+ek\)", SN2_BODY)],
+    contract=_t1.SN_FRESH + r"""
+__CPROVER_requires(TH < m_size && RS < NB_CAP && RS2 < NB_CAP)
+__CPROVER_requires(n_edges + 1 <= DEGN && DEGN <= ((size_t) 1 << 40) + 1 && __CPROVER_is_fresh(DEG, DEGN * sizeof(size_t)) && DEG[0] == 0)
+__CPROVER_assigns(PG, PH, WE, WE2, BE, __CPROVER_object_whole(m_boundary_nodes), __CPROVER_object_whole(m_neighbors_indices),
+                  __CPROVER_object_whole(m_neighbors_distances), __CPROVER_object_whole(m_neighbors_n))
+/* C18 `share an edge => neighbours, symmetric, equal distances`: the two end points of every entry occur in each other's row */
+__CPROVER_ensures(%(Q1)s)
+/* C18 `neighbours => share an edge`: every slot of a row holds the other end point of an entry incident to the node (a node index, not the node itself) */
+__CPROVER_ensures(%(Q2a)s)
+/* C18 no duplicates: two different slots of a row hold different nodes; a row has exactly one slot per incident entry */
+__CPROVER_ensures(%(Q4)s)
+__CPROVER_ensures(NBN(TG) == DEG[n_edges] && NBN(TG) <= NB_CAP)
+/* C18 boundary set = end points of the entries counted once */
+__CPROVER_ensures(%(Q5A)s)
+__CPROVER_ensures(%(Q5B)s)
+""" % dict(Q1=SN2_Q1 % "n_edges", Q2a=SN2_Q2 % dict(s="RS", w="WE", k="n_edges"), Q4=SN2_Q4, Q5A=SN2_Q5A % "n_edges", Q5B=SN2_Q5B % "n_edges"),
+    loops={0: r"""
+__CPROVER_assigns(ek, PG, PH, WE, WE2, BE, __CPROVER_object_whole(m_boundary_nodes), __CPROVER_object_whole(m_neighbors_indices),
+                  __CPROVER_object_whole(m_neighbors_distances), __CPROVER_object_whole(m_neighbors_n))
+__CPROVER_loop_invariant(ek <= n_edges && NBN(TG) <= NB_CAP && NBN(TH) <= NB_CAP && NBN(TG) == DEG[ek] && PG < NB_CAP && PH < NB_CAP)
+__CPROVER_loop_invariant(%(Q1)s)
+__CPROVER_loop_invariant(%(Q2a)s)
+__CPROVER_loop_invariant(%(Q2b)s)
+__CPROVER_loop_invariant(%(Q4)s)
+__CPROVER_loop_invariant(%(Q5A)s)
+__CPROVER_loop_invariant(%(Q5B)s)
+__CPROVER_decreases(n_edges - ek)
+""" % dict(Q1=SN2_Q1 % "ek", Q2a=SN2_Q2 % dict(s="RS", w="WE", k="ek"), Q2b=SN2_Q2 % dict(s="RS2", w="WE2", k="ek"), Q4=SN2_Q4,
+           Q5A=SN2_Q5A % "ek", Q5B=SN2_Q5B % "ek")},
+)
+
+_SN2_DECL_ARGS = "nondet_size_t(), nondet_size_t(), ef, es, ec, pts, bn, ni, nd, nn"
+G_SN2_STEP = Group(
+    name="trimesh2.fill.step", units=[sn_step2], harness=H_SN2 % dict(fn="tri_sn_step2", call="tri_sn_step2(nondet_size_t(), %s)" % _SN2_DECL_ARGS),
+    entry="h_tri_sn_step2", enforce="tri_sn_step2", timeout=600, min_obligations=20,
+    clause="set_neighbors, second loop, one entry (same extraction as trimesh.set_neighbors.step, stronger contract): the rows of two arbitrary nodes "
+           "grow by exactly one slot per end point of the entry that is the node, the new slot holds the other end point, both directions get the same "
+           "distance, existing slots keep index and distance; boundary set grows exactly by the end points of an entry counted once")
+G_SN2_MODELS = [
+    Group(name="trimesh2.model.bset_clear", units=[sn_step2, sn_fill], harness=H_SN2 % dict(fn="fsl_bset_clear", call="fsl_bset_clear(bn, nondet_size_t())"),
+          entry="h_fsl_bset_clear", enforce="fsl_bset_clear", loop_contracts=True, timeout=120, min_obligations=5,
+          clause="set model: clear() leaves no element (ghost node)"),
+    Group(name="trimesh2.model.rows_resize", units=[sn_step2, sn_fill], harness=H_SN2 % dict(fn="fsl_rows_resize", call="fsl_rows_resize(nn, nondet_size_t())"),
+          entry="h_fsl_rows_resize", enforce="fsl_rows_resize", loop_contracts=True, timeout=120, min_obligations=5,
+          clause="row model: resize(m_size) of an empty vector of rows yields empty rows (ghost nodes)"),
+]
+G_SN2_LOOP = Group(
+    name="trimesh2.fill.loop", units=[sn_step2, sn_fill], harness=H_SN2 % dict(fn="tri_sn_fill", call="tri_sn_fill(%s, deg)" % _SN2_DECL_ARGS),
+    entry="h_tri_sn_fill", enforce="tri_sn_fill", replace=["tri_sn_step2", "fsl_bset_clear", "fsl_rows_resize"], loop_contracts=True,
+    timeout=900, min_obligations=30,
+    clause="set_neighbors, second half as a whole (any number of entries): for every entry both end points occur in each other's row with equal "
+           "distances; every row slot is the other end point of an incident entry; no node twice in a row; row length = number of incident entries; "
+           "boundary set = end points of entries counted once")
+GROUPS["C18"] += [G_SN2_STEP] + G_SN2_MODELS + [G_SN2_LOOP]
+
+
+# ====================================================================================================================== part 3: accessors, status
+# Row model as above (SN_MODEL of spec/trimesh.py).  std::vector::operator[] is unchecked: every index is an obligation (FSL_IDX1) under the
+# documented precondition `idx is a node index`.
+ACC_MODEL = _t1.SN_MODEL + r"""
+#ifndef FSL_TRI2_ACC
+#define FSL_TRI2_ACC
+size_t GS;        /* ghost row slot */
+size_t out_n;     /* neighbors.size() of the caller's output vector */
+#endif
+"""
+ACC_ROWS = [
+    V(r"m_neighbors_indices\[([^\[\]]*)\]\.size\(\)", r"NBN(FSL_IDX1(\1, m_size))"),
+    V(r"m_neighbors_indices\[([^\[\]]*)\]\[([^\[\]]*)\]", r"NBI(FSL_IDX1(\1, m_size), FSL_IDX1(\2, NBN(\1)))"),
+    V(r"m_neighbors_distances\[([^\[\]]*)\]\.size\(\)", r"NBN(FSL_IDX1(\1, m_size))"),
+    V(r"m_neighbors_distances\[([^\[\]]*)\]\[([^\[\]]*)\]", r"NBD(FSL_IDX1(\1, m_size), FSL_IDX1(\2, NBN(\1)))"),
+    # a whole row returned by reference: pointer to its first slot
+    V(r"return m_neighbors_distances\[([^\[\]]*)\];", r"return &NBD(FSL_IDX1(\1, m_size), 0);"),
+]
+ACC_REQ = r"""
+__CPROVER_requires(0 < m_size && m_size <= ((size_t) 1 << 40) && idx < m_size)
+"""
+nb_count = Unit(
+    name="tri_nb_count", file=TRI_H, anchor=r"inline auto trimesh_xt<S, N>::neighbors_count_impl\(const size_type& idx\) const -> size_type",
+    sig="size_t tri_nb_count(size_t idx, size_t m_size, const size_t *m_neighbors_n)", pre=ACC_MODEL, rules=ACC_ROWS,
+    contract=ACC_REQ + r"""
+__CPROVER_requires(__CPROVER_is_fresh(m_neighbors_n, m_size * 8))
+__CPROVER_assigns()
+/* the number of neighbours is the length of the node's row */
+__CPROVER_ensures(__CPROVER_return_value == NBN(idx))
+""")
+nb_indices = Unit(
+    name="tri_nb_indices", file=TRI_H,
+    anchor=r"void trimesh_xt<S, N>::neighbors_indices_impl\(neighbors_indices_impl_type& neighbors,\s*const size_type& idx\) const",
+    sig="void tri_nb_indices(size_t *neighbors, size_t out_cap, size_t idx, size_t m_size, const size_t *m_neighbors_indices, const size_t *m_neighbors_n)",
+    pre=ACC_MODEL,
+    rules=ACC_ROWS + [
+        R(r"const auto& size =", "const size_t size =", 1),
+        # std::vector::resize of the caller's vector (it reallocates as needed; the model buffer has a ghost capacity >= the row capacity)
+        V(r"\bneighbors\.resize\(([^()]*)\);", r'{ FSL_CHECK((\1) <= out_cap, "output vector model: size within the ghost capacity"); out_n = (\1); }'),
+        V(r"\bneighbors\[([^\[\]]*)\]", r"neighbors[FSL_IDX1(\1, out_n)]"),
+    ],
+    contract=ACC_REQ + r"""
+__CPROVER_requires(NB_CAP <= out_cap && out_cap <= 1024 && __CPROVER_is_fresh(neighbors, out_cap * sizeof(size_t)))
+__CPROVER_requires(__CPROVER_is_fresh(m_neighbors_indices, m_size * 64) && __CPROVER_is_fresh(m_neighbors_n, m_size * 8))
+/* what set_neighbors establishes for every row (trimesh2.fill.loop): length within the row capacity, slots hold node indices (ghost slot) */
+__CPROVER_requires(NBN(idx) <= NB_CAP && GS < NB_CAP && (GS < NBN(idx) ==> NBI(idx, GS) < m_size))
+__CPROVER_assigns(out_n, __CPROVER_object_whole(neighbors))
+/* the output is a copy of the node's row: same length, same node in every slot, every entry a node index */
+__CPROVER_ensures(out_n == NBN(idx))
+__CPROVER_ensures(GS < out_n ==> (neighbors[GS] == NBI(idx, GS) && neighbors[GS] < m_size))
+""",
+    loops={0: r"""
+__CPROVER_assigns(i, __CPROVER_object_whole(neighbors))
+__CPROVER_loop_invariant(i <= size && size == NBN(idx) && out_n == size)
+__CPROVER_loop_invariant((GS < i && GS < NB_CAP) ==> neighbors[GS] == NBI(idx, GS))
+__CPROVER_decreases(size - i)
+"""})
+nb_dist = Unit(
+    name="tri_nb_dist", file=TRI_H,
+    anchor=r"auto trimesh_xt<S, N>::neighbors_distances_impl\(const size_type& idx\) const\s*-> const neighbors_distances_impl_type&",
+    sig="const double *tri_nb_dist(size_t idx, size_t m_size, const double *m_neighbors_distances)", pre=ACC_MODEL, rules=ACC_ROWS,
+    contract=ACC_REQ + r"""
+__CPROVER_requires(__CPROVER_is_fresh(m_neighbors_distances, m_size * 64))
+__CPROVER_assigns()
+/* the distances returned are the node's own distance row (pushed in lock step with the index row by set_neighbors) */
+__CPROVER_ensures(__CPROVER_return_value == m_neighbors_distances + idx * NB_CAP)
+""")
+
+H_ACC = r"""
+size_t nondet_size_t(void);
+void h_%(fn)s(void)
+{
+    size_t *out; const size_t *ni, *nn; const double *nd;
+    GS = nondet_size_t(); out_n = nondet_size_t();
+    %(call)s;
+    __CPROVER_assert(0, "canary: postcondition point reachable");
+}
+"""
+G_ACC = [
+    Group(name="trimesh2.neighbors_count", units=[nb_count], harness=H_ACC % dict(fn="tri_nb_count", call="tri_nb_count(nondet_size_t(), nondet_size_t(), nn)"),
+          entry="h_tri_nb_count", enforce="tri_nb_count", timeout=120, min_obligations=3,
+          clause="neighbors_count_impl returns the length of the node's row; the row table is indexed inside [0, size)"),
+    Group(name="trimesh2.neighbors_indices", units=[nb_indices],
+          harness=H_ACC % dict(fn="tri_nb_indices", call="tri_nb_indices(out, nondet_size_t(), nondet_size_t(), nondet_size_t(), ni, nn)"),
+          entry="h_tri_nb_indices", enforce="tri_nb_indices", loop_contracts=True, timeout=300, min_obligations=10,
+          clause="neighbors_indices_impl: the output vector is resized to the row length and is a slot-by-slot copy of the node's row (every entry a "
+                 "node index); reads stay inside the row, writes inside the output"),
+    Group(name="trimesh2.neighbors_distances", units=[nb_dist], harness=H_ACC % dict(fn="tri_nb_dist", call="tri_nb_dist(nondet_size_t(), nondet_size_t(), nd)"),
+          entry="h_tri_nb_dist", enforce="tri_nb_dist", timeout=120, min_obligations=3,
+          clause="neighbors_distances_impl returns the node's own distance row; the row table is indexed inside [0, size)"),
+]
+
+# ---- set_nodes_status, array overload (trimesh.hpp 410-419; the map overload is status.trimesh.set_nodes_status of spec/status.py)
+ST_MODEL = r"""
+#ifndef FSL_TRI2_ST
+#define FSL_TRI2_ST
+size_t GN2;      /* ghost node */
+int fsl_thrown;
+/* xtensor `dst = src` for two 1-D containers of the same shape: element-wise copy (TRUSTED xtensor semantics; loop proved in trimesh2.model.status_copy) */
+void fsl_status_copy(uint8_t *dst, const uint8_t *src, size_t n)
+__CPROVER_requires(1 <= n && n <= ((size_t) 1 << 40) && __CPROVER_is_fresh(dst, n) && __CPROVER_is_fresh(src, n) && GN2 < n)
+__CPROVER_assigns(__CPROVER_object_whole(dst))
+__CPROVER_ensures(dst[GN2] == src[GN2])
+{
+    for (size_t k = 0; k < n; ++k)
+    __CPROVER_assigns(k, __CPROVER_object_whole(dst))
+    __CPROVER_loop_invariant(k <= n)
+    __CPROVER_loop_invariant(GN2 < k ==> dst[GN2] == src[GN2])
+    __CPROVER_decreases(n - k)
+    {
+        dst[k] = src[k];
+    }
+}
+#endif
+"""
+st_array = Unit(
+    name="tri_set_status_array", file=TRI_H, anchor=r"void trimesh_xt<S, N>::set_nodes_status\(const nodes_status_array_type& nodes_status\)",
+    sig="void tri_set_status_array(uint8_t *m_nodes_status, const uint8_t *nodes_status, size_t ns_shape0, size_t m_shape0)", pre=ST_MODEL,
+    rules=[
+        # xt::same_shape on two 1-D shapes: equal extents (TRUSTED); m_shape == { m_size } is the class invariant set by set_size_shape
+        V(r"xt::same_shape\(nodes_status\.shape\(\), m_shape\)", "(ns_shape0 == m_shape0)"),
+        V(r"throw std::(?:invalid_argument|out_of_range|runtime_error|logic_error)\(\s*\"[^;]*\);", "{ fsl_thrown = 1; return; }", _re.S),
+        R(r"m_nodes_status = nodes_status;", "fsl_status_copy(m_nodes_status, nodes_status, m_shape0);", 1),
+    ],
+    contract=r"""
+__CPROVER_requires(1 <= m_shape0 && m_shape0 <= ((size_t) 1 << 40) && 1 <= ns_shape0 && ns_shape0 <= ((size_t) 1 << 40) && GN2 < m_shape0 && fsl_thrown == 0)
+__CPROVER_requires(__CPROVER_is_fresh(m_nodes_status, m_shape0) && __CPROVER_is_fresh(nodes_status, ns_shape0))
+__CPROVER_assigns(fsl_thrown, __CPROVER_object_whole(m_nodes_status))
+/* documented: the array gives the status of ALL nodes (shape [N]); any other shape is refused with an error and nothing is written */
+__CPROVER_ensures((fsl_thrown != 0) == (ns_shape0 != m_shape0))
+__CPROVER_ensures(fsl_thrown == 0 ==> m_nodes_status[GN2] == nodes_status[GN2])
+__CPROVER_ensures(fsl_thrown != 0 ==> m_nodes_status[GN2] == __CPROVER_old(m_nodes_status[GN2]))
+""")
+H_ST = r"""
+size_t nondet_size_t(void);
+void h_%(fn)s(void)
+{
+    uint8_t *st; const uint8_t *src;
+    GN2 = nondet_size_t(); fsl_thrown = 0;
+    %(call)s;
+    __CPROVER_assert(0, "canary: postcondition point reachable");
+}
+"""
+G_ST = [
+    Group(name="trimesh2.model.status_copy", units=[st_array], harness=H_ST % dict(fn="fsl_status_copy", call="fsl_status_copy(st, src, nondet_size_t())"),
+          entry="h_fsl_status_copy", enforce="fsl_status_copy", loop_contracts=True, timeout=120, min_obligations=5,
+          clause="container model: same-shape 1-D assignment copies the ghost cell"),
+    Group(name="trimesh2.set_nodes_status.array", units=[st_array],
+          harness=H_ST % dict(fn="tri_set_status_array", call="tri_set_status_array(st, src, nondet_size_t(), nondet_size_t())"),
+          entry="h_tri_set_status_array", enforce="tri_set_status_array", replace=["fsl_status_copy"], timeout=120, min_obligations=5,
+          clause="mesh status from a status array: refused iff its length differs from the number of nodes, otherwise every node gets the given status"),
+]
+GROUPS["C18"] += G_ACC
+GROUPS["C17"] = G_ST
+
+
+# ====================================================================================================================== registration
+for _g in GROUPS["C18"] + GROUPS["C17"]:
+    if not _g.name.startswith("trimesh2.model.") and _g.name != "trimesh2.map.insert":
+        _g.replay = "replay/trimesh2.cpp"
+
+# C08: every group above runs with ALL of cbmc's checks (bounds, pointer, overflow, conversion, div-by-zero, undefined shift) plus the explicit
+# index obligations (FSL_IDX1 at every xtensor / std::vector element access) under the function's stated precondition
+GROUPS["C08"] = [g for g in GROUPS["C18"] + GROUPS["C17"] if not g.name.startswith("trimesh2.model.") and g.name != "trimesh2.map.insert"]
+
+_MAP_MODEL = ("std::unordered_map<edge_type, size_type, tri_edge_hash, tri_edge_equal> is modelled by the list of its entries (key.first, key.second, count) "
+              "with a length and a ghost capacity; insert({key, v}) is a linear search with the EXTRACTED tri_edge_equal that returns the existing entry "
+              "(second == false) or appends (second == true); iteration = list order (arbitrary).  TRUSTED container semantics: keys unique up to the "
+              "equality functor, the hash functor only has to agree with the equality (trimesh.edge_identity).  The model function itself is proved "
+              "against its contract in trimesh2.map.insert")
+PROPS = {
+    "C18": dict(
+        level="other",
+        explanation="set_neighbors is decided loop by loop for meshes of any size (spec/trimesh2.py).  First loop (trimesh2.count.*): for an arbitrary "
+                    "unordered node pair {A, B} at most one map entry has that key (either orientation), every entry is a pair of different vertices of a "
+                    "triangle, every triangle edge has an entry, and the entry's count is the number of (triangle, edge) occurrences of the pair.  Second "
+                    "loop (trimesh2.fill.*): for every entry both end points occur in each other's neighbour row with equal distances, every row slot is the "
+                    "other end point of an incident entry, no node occurs twice in a row, a row has one slot per incident entry, and the boundary set is exactly "
+                    "the set of end points of entries counted once.  Accessors return the row length / a copy of the row.  Default status = fixed value exactly "
+                    "on the boundary set is status.trimesh.set_nodes_status (spec/status.py).",
+        assumptions=[
+            _MAP_MODEL,
+            "ghost capacity of the map model: room for three entries per triangle (model artefact; the real map rehashes)",
+            "input precondition (planar triangulation), instantiated where a triangle is read: its three vertices are pairwise different node "
+            "indices < size (used only by the `sound` part: entry keys are two different node indices)",
+            "the ghost prefix-count tables CUM (occurrences of {A, B} among the triangles [0, t)) and DEG (entries among [0, k) incident to the ghost "
+            "node) are harness-owned; their defining recurrence is instantiated at the triangle / entry being read (CUM[0] = DEG[0] = 0 in requires)",
+            "induction-hypothesis instance (DESIGN 3.9) in the first loop's body: `no entry other than the witness slot GW has the key {A, B}` (proved "
+            "as invariant J2 for an arbitrary ghost slot) is assumed at the slot returned by the search, in the found case, before any write of the iteration",
+            "second loop, input preconditions instantiated at the entry being read (what the first loop establishes for every entry / pair of "
+            "entries): end points are two different node indices (J6 of trimesh2.count.loop.sound); its key differs from the key of the entries that "
+            "wrote the two ghost row slots (J3 of trimesh2.count.loop.uniq)",
+            "neighbour rows are fixed-capacity rows of 8 slots with ONE length per node, advanced at the distance push (model of spec/trimesh.py: index "
+            "and distance rows are pushed in lock step); `row not full` is assumed at each push (capacity = at most n_neighbors_max neighbours per node, "
+            "the documented precondition of the mesh; the real rows are std::vectors and grow)",
+            "m_neighbors_indices.resize(m_size) / m_neighbors_distances.resize(m_size) act on EMPTY member vectors (set_neighbors is protected and only "
+            "called by the two constructors): m_size empty rows; m_boundary_nodes is its characteristic array, clear() zeroes it (model loops proved in "
+            "trimesh2.model.*)",
+            "the two halves of set_neighbors are cut from the same function body at `m_boundary_nodes.clear();` (slicing); the entry list produced by the "
+            "first half is the read-only input of the second (same abstract list; the first half stores it as one array of (first, second, count) "
+            "records, the second half reads three parallel arrays as unit tri_sn_step of spec/trimesh.py does)",
+            "callee contracts used by replacement are each enforced by their own group: tri_ec_insert (trimesh2.map.insert), tri_ec_step / tri_ec_tri "
+            "(trimesh2.count.step.<part> / trimesh2.count.tri.<part>, same -D part as the group that uses it), tri_sn_step2 (trimesh2.fill.step), the "
+            "container model loops",
+            "accessors: the output vector of neighbors_indices_impl is a buffer with a ghost capacity >= the row capacity; row well-formedness (length "
+            "<= capacity, slots hold node indices) is the postcondition of trimesh2.fill.loop, taken as precondition",
+        ],
+        unmechanised=[
+            "universal generalisation over the harness-owned ghosts (node pair, slots, triangle, nodes, entry)",
+            "composition `two nodes are neighbours exactly when they share a triangle edge, no duplicates`: (=>) a row slot of A holding B comes from an "
+            "entry {A, B} (fill.loop) whose key is a vertex pair of a triangle (count.loop.sound); (<=) a triangle edge {A, B} has an entry "
+            "(count.loop.ab), whose end points are in each other's rows (fill.loop); duplicates are excluded by unique keys (count.loop.uniq) + one slot "
+            "per incident entry (fill.loop).  Each arrow is a proved clause; chaining them (instantiating the ghosts of one group with the witnesses of "
+            "another, and that the second half runs on the list the first half produced) is not mechanised",
+            "boundary: `edge belongs to a single triangle` = entry count 1 uses count == CUM[n_triangles] (count.loop.ab) and that CUM[n_triangles] is "
+            "the number of triangles containing the edge (definition of the ghost table, unfolded by induction over t)",
+            "lemma split of the first loop into the parts ab / uniq / sound: each part's invariants are inductive on their own; their conjunction is "
+            "the invariant of the loop",
+        ],
+        undecided=[
+            "distance equal to the Euclidean edge length: only `both directions store the same computed value` is decided; that the value is "
+            "sqrt(dx^2 + dy^2) of the two end points is checked by the native replay (replay/trimesh2.cpp, 1e-12 relative) -- restating the "
+            "floating-point expression would put two sqrt / multiplier circuits into one obligation",
+            "node areas (set_nodes_areas: xtensor expression algebra, nonlinear floating point): out of reach",
+            "constructor glue (set_size_shape, the order of the four set_* calls, m_nodes_points copy)",
+        ],
+    ),
+    "C08": dict(
+        level="other", safety_only=True,
+        explanation="trimesh: both loops of set_neighbors (outlined bodies and whole loops), the three neighbour accessors and the array overload of "
+                    "set_nodes_status run with all memory-safety and arithmetic checks on, for meshes of any size under the stated preconditions.",
+        assumptions=["trimesh rows: fixed capacity 8 with `row not full` assumed at each push (the real rows are std::vectors); map model with a ghost capacity",
+                     "accessors: idx < size is the documented precondition (std::vector::operator[] is unchecked)"],
+        undecided=["trimesh::set_nodes_areas, set_size_shape and the constructors' glue"],
+    ),
+    "C17": dict(
+        level="proof",
+        explanation="trimesh_xt::set_nodes_status(array overload): refused iff the array's length differs from the number of nodes, otherwise every node "
+                    "gets the given status (trimesh2.set_nodes_status.array).",
+        assumptions=["xt::same_shape on two 1-D shapes compares the extents; `m_nodes_status = nodes_status` for equal shapes is an element-wise copy "
+                     "(model loop trimesh2.model.status_copy); class invariant m_shape == { m_size }"],
+        undecided=["a status ARRAY containing node_status::looped is accepted by the array overload (only the override map refuses looped); the property "
+                   "statement speaks of per-node overrides only -- noted, not claimed either way"],
+    ),
+}
